@@ -8,7 +8,7 @@ CONSTANTS
   Stim = {"demote", "ho1", "ho1x", "ho9"}
   StimAnywhere = TRUE
   Focus = "all"
-  AllowMute = TRUE
+  Mute = "either"
   CheckAfterAcquire = FALSE
   Mut = "none"
   Emit = "none"
